@@ -305,7 +305,9 @@ def writearlpackedbit(infile, path):
     for ti, (time, thead) in enumerate(zip(times, theads)):
         for propk in thead.dtype.names:
             if propk in ('NX', 'NY', 'NZ'):
-                thead[propk] = '%3d' % props[propk]
+                # sizes of 1000 and more: the thousands are the letters of
+                # the grid id (GRID), the I3 field holds the remainder
+                thead[propk] = '%3d' % (props[propk] % 1000)
             elif propk == 'LENH':
                 thead[propk] = '%4d' % props['LENH']
             else:
